@@ -555,8 +555,9 @@ def run(tier, seed, replay=None):
         "bsearch_s: every sorted array over 3 keys for nmemb 0..%d x every key 0..6" % (8 if tier == "quick" else 12)]
     res.extra["cases_by_origin"] = exh
     res.extra["model_fixes"] = dict(order="ctz64,ovf", override=fx.strip() or None)
-    res.extra["sortedness_note"] = ("sortedness of the qsort_s result for a total-preorder comparator is NOT proved in Lean for all nmemb (see NOTES_C16.md); it rests on "
-                                    "the exact comparator-sequence correspondence with the model plus this oracle on every implementation observation")
+    res.extra["sortedness_note"] = ("sortedness (total-preorder comparator), termination and bounds of the whole qsort_s call are proved in Lean for every array of up to leo 65 = 55555780070575 elements "
+                                    "(qsort_sorted_partial, qsort_safe_partial; unconditional for BOS_UNKNOWN: qsort_safe_bos_unknown); beyond that pntz mis-answers a distance of exactly 64 "
+                                    "(qsort_safe_witness); the oracle still checks order on every implementation observation")
     trusted = ["Lean 4.33 kernel; axioms propext, Classical.choice, Quot.sound only (audited per theorem on every run)",
                "lean/SafeC/Models/Sort.lean: hand-written element-level model of musl smoothsort (sift/trinkle/cycle/shl/shr/pntz, lp[96], ar[113], two UInt64 words with x86 shift-count masking, "
                "__builtin_ctz on the low 32 bits compiled to tzcnt) and of the bsearch_s loop and both entry checks; tied to the C by this run's inputs only: exact comparator call sequence, final arrangement of whole elements, return/handler",
